@@ -240,6 +240,45 @@ func runNative(pkgRel string, overlayFiles map[string]string, files []string) (m
 					}
 				}
 			}
+			// a replay that terminates the test process (os.Exit in the target, a fatal runtime error such as a deadlock
+			// or concurrent map writes) leaves no result line: re-run such files one by one; a process that dies again,
+			// quickly and with a non-zero status, is a failed replay
+			for _, f := range set[start:end] {
+				if _, ok := results[f]; ok || strings.Contains(string(o), "panic: test timed out") {
+					continue
+				}
+				t0 := time.Now()
+				one := exec.Command(bin, "-test.run", "^TestVerifReplay$", "-test.count=1", "-test.timeout=120s")
+				one.Dir = filepath.Join(repoRoot, pkgRel)
+				one.Env = append(env, "VERIF_REPLAY="+f)
+				oo, oerr := one.CombinedOutput()
+				logs.Write(oo)
+				got := false
+				sc2 := bufio.NewScanner(strings.NewReader(string(oo)))
+				sc2.Buffer(make([]byte, 1<<20), 1<<24)
+				for sc2.Scan() {
+					line := sc2.Text()
+					if j := strings.Index(line, "VERIF-RESULT: "); j >= 0 {
+						var r NativeResult
+						if json.Unmarshal([]byte(line[j+len("VERIF-RESULT: "):]), &r) == nil {
+							results[r.File] = r
+							got = true
+						}
+					}
+				}
+				if !got && oerr != nil && time.Since(t0) < 60*time.Second && !strings.Contains(string(oo), "test timed out") {
+					tail := strings.TrimSpace(string(oo))
+					if len(tail) > 300 {
+						tail = tail[len(tail)-300:]
+					}
+					r := NativeResult{File: f, Panic: "process terminated during the replay (" + oerr.Error() + "): " + tail}
+					var rf ReplayFile
+					if b, err := ioutil.ReadFile(f); err == nil && json.Unmarshal(b, &rf) == nil {
+						r.Harness = rf.Harness
+					}
+					results[f] = r
+				}
+			}
 			if race && strings.Contains(string(o), "WARNING: DATA RACE") {
 				f := set[start]
 				r := results[f]
